@@ -11,7 +11,8 @@ open AcraModel AcraModel.KeystoreSec AcraModel.KeystoreSec.Export
 
 /-- **Export ∘ import = identity.** For every source store, selection of ring paths and access
 keys: if the export (with private data) succeeds and every exported key is importable (what
-`copyKey` demands: ordered validity period, at least one data item of pairwise different formats),
+`copyKey` demands: ordered validity period, at least one data item – or none at all for a destroyed
+key –, pairwise different formats),
 then importing the bundle with the same access keys into a target that has none of these rings
 succeeds, and afterwards every selected ring, exported again from the target under the *target's*
 master key, is identical to what was exported from the source: same keys in the same order, same
@@ -108,17 +109,19 @@ theorem reject_wrong_enc_key (c : CryptoOps) (hl : SealLaws c) (hc : SealCommit 
     · simp [hraw, hcd.payload, hdec]
     · simp
 
-/-- **Destroyed keys block import (finding on the pinned tree).** A ring that contains a destroyed
-key (no data left) exports fine but `copyKey` refuses the key (`ErrNoKeyData`): the import fails
-*after* `openKeyRing` created the ring, leaving an empty ring behind in the target. -/
-theorem import_destroyed_counterexample (c : CryptoOps) (ν : Nonces) (T : Store) (x : Ring) (k : Key)
+/-- **Destroyed keys blocked import on the pinned tree (defect, repaired by
+`repo-patches/03-fix-v2-import-destroyed-key.diff`).** With `copyKey` as pinned, a ring that
+contains a destroyed key (no data left) exports fine but is refused on import (`ErrNoKeyData`), and
+the failure comes *after* `openKeyRing` created the ring: an empty ring is left behind in the target. -/
+theorem import_destroyed_pinned_counterexample (c : CryptoOps) (ν : Nonces) (T : Store) (x : Ring) (k : Key)
     (hk : k ∈ x.keys) (hd : k.data = []) (hfree : T.get x.purpose = none) :
-    (importKeyRing c ν T x).2 = false ∧ (importKeyRing c ν T x).1.get x.purpose = some ⟨x.purpose, [], -1⟩ := by
-  have hcopy : copyKey c ν T.master x.purpose k = none := by
-    unfold copyKey
+    (importKeyRingPinned c ν T x).2 = false ∧
+      (importKeyRingPinned c ν T x).1.get x.purpose = some ⟨x.purpose, [], -1⟩ := by
+  have hcopy : copyKeyPinned c ν T.master x.purpose k = none := by
+    unfold copyKeyPinned
     rw [hd]
     split <;> simp
-  have hall : x.keys.mapM (copyKey c ν T.master x.purpose) = none := by
+  have hall : x.keys.mapM (copyKeyPinned c ν T.master x.purpose) = none := by
     clear hfree
     generalize x.keys = ks at hk
     induction ks with
@@ -128,8 +131,11 @@ theorem import_destroyed_counterexample (c : CryptoOps) (ν : Nonces) (T : Store
       rcases hk with rfl | hk
       · simp [List.mapM_cons, hcopy]
       · have := ih hk
-        cases hca : copyKey c ν T.master x.purpose a <;> simp [List.mapM_cons, hca, this]
-  simp [importKeyRing, hfree, importASN1, hall]
+        cases hca : copyKeyPinned c ν T.master x.purpose a <;> simp [List.mapM_cons, hca, this]
+  simp [importKeyRingPinned, hfree, importASN1Pinned, hall]
+
+/-- after the repair a destroyed key is importable -/
+example : ImportableKey ⟨2, stDestroyed, 0, 10, []⟩ := ⟨by decide, Or.inr rfl, by simp, by simp⟩
 
 /-! ## non-vacuity: the hypotheses are jointly satisfiable (Box instance, a trivial codec) -/
 
@@ -146,7 +152,7 @@ example : EncNonEmpty boxOps := by
 example : NoncesOk (fun _ _ => List.replicate 12 0) := by intro x m; simp [nonceLen]
 
 example : ImportableKey ⟨1, 1, 0, 10, [⟨fmtSym, [], [], [1, 2, 3]⟩]⟩ :=
-  ⟨by decide, by simp, by simp, by
+  ⟨by decide, Or.inl (by simp), by simp, by
     intro d hd
     simp at hd
     subst hd
